@@ -50,12 +50,8 @@ theorem roundtrip_keeps_counters (h : Hub) (c : String) (hc : c ∈ h.chains) :
 `InitGenesis` first sets the chain's sequence counter to the exported value and then stores every
 listed outgoing transaction with `SetOutgoingTx`, which stamps it with the next sequence number.
 (`ExportGenesis` never writes that section, so the correspondence runs import it empty; the order of
-the two steps is pinned by `fact_genesis_import_order`.) -/
-
-/-- `SetOutgoingTx` over the imported list, starting from counter `s`: the stamps and the final counter. -/
-def importStamps : Nat → List α → List (α × Nat) × Nat
-  | s, [] => ([], s)
-  | s, x :: xs => let r := importStamps (s + 1) xs; ((x, s + 1) :: r.1, r.2)
+the two steps is pinned by `fact_genesis_import_order`, and the `import_stamped` operation of the genesis profile runs the real
+`InitGenesis` on such a genesis against `Mhub2.importStamps`.) -/
 
 theorem importStamps_spec (s : Nat) (xs : List α) :
     (importStamps s xs).2 = s + xs.length ∧
